@@ -334,6 +334,12 @@ func (d *tDecoder) decodeType(t *tType, b []byte, p unsafe.Pointer, maxdepth int
 				*(*unsafe.Pointer)(tmp) = sliceV
 				tmp = sliceV
 			}
+			if vt.T == tSTRUCT && !vt.IsPointer {
+				// the temp slot is reused for every entry (and, via the pool, by
+				// later decodes): fields absent from this entry must not keep
+				// the values of the previous one.
+				v.SetZero()
+			}
 			if vt.FixedSize > 0 {
 				i += decodeFixedSizeTypes(vt.T, b[i:], tmp)
 			} else {
